@@ -37,7 +37,21 @@ fn driver_run(op: &Value) -> Result<Option<Value>, String> {
         AsyncDriver::with_clock(start)
     };
 
-    fn parse_task(v: &Value) -> Result<Vec<(u64, Option<u32>)>, String> {
+    /// A future that returns Pending once without asking for a wake-up cycle.
+    struct YieldOnce(bool);
+    impl std::future::Future for YieldOnce {
+        type Output = ();
+        fn poll(mut self: std::pin::Pin<&mut Self>, _cx: &mut std::task::Context<'_>) -> std::task::Poll<()> {
+            if self.0 {
+                std::task::Poll::Ready(())
+            } else {
+                self.0 = true;
+                std::task::Poll::Pending
+            }
+        }
+    }
+
+    fn parse_task(v: &Value) -> Result<Vec<(u64, Option<u32>, u64)>, String> {
         let arr = v.as_array().ok_or_else(|| "task".to_string())?;
         let mut out = Vec::new();
         for step in arr {
@@ -46,7 +60,8 @@ fn driver_run(op: &Value) -> Result<Option<Value>, String> {
                 .and_then(|x| x.as_u64())
                 .ok_or_else(|| "sleep".to_string())?;
             let e = step.get(1).and_then(|x| x.as_u64()).map(|x| x as u32);
-            out.push((d, e));
+            let style = step.get(2).and_then(|x| x.as_u64()).unwrap_or(0);
+            out.push((d, e, style));
         }
         Ok(out)
     }
@@ -54,12 +69,23 @@ fn driver_run(op: &Value) -> Result<Option<Value>, String> {
     fn spawn_task(
         driver: &mut AsyncDriver,
         id: u64,
-        steps: Vec<(u64, Option<u32>)>,
+        steps: Vec<(u64, Option<u32>, u64)>,
         log: Rc<RefCell<Vec<(u64, u64, u64)>>>,
     ) {
+        // style 2: the sleep futures of the plan exist before the task is spawned
+        let mut naps: Vec<Option<sc62015_core::async_driver::CycleSleep>> = steps
+            .iter()
+            .map(|(d, _, st)| if *st == 2 { Some(sleep_cycles(*d)) } else { None })
+            .collect();
         driver.spawn(async move {
-            for (idx, (d, e)) in steps.into_iter().enumerate() {
-                sleep_cycles(d).await;
+            for (idx, (d, e, style)) in steps.into_iter().enumerate() {
+                if let Some(nap) = naps[idx].take() {
+                    nap.await;
+                } else if style == 1 {
+                    YieldOnce(false).await;
+                } else {
+                    sleep_cycles(d).await;
+                }
                 log.borrow_mut().push((id, idx as u64, current_cycle()));
                 if let Some(ev) = e {
                     emit_event(DriverEvent::User(ev));
